@@ -23,7 +23,7 @@ def run(chk):
     chk.assumptions = list(rc.ASSUMPTIONS) + [
         "source segmentation: the decoder reads through std::io::Read::read_exact-style loops, so it is a function of the flat byte list; this is not modelled but exercised (every split point of small files, 1-byte reads, random chunks) and the model's answer does not depend on it",
     ]
-    proof_ok = rc.proof_stage(chk, THEOREMS, e2e_theorems=["C07_decoded_file_is_read", "C07_decoded_file_is_read_bytes_channels", "C05_damaged_file_is_read"])
+    proof_ok = rc.proof_stage(chk, THEOREMS, e2e_theorems=["C07_decoded_file_is_read", "C07_decoded_file_is_read_bytes_channels", "C05_damaged_file_is_read", "C04_any_file_readers_never_panic"])
     exe = rc.build_driver(chk, "c07") if proof_ok else None
 
     total_cases = compared = disagreements = soft = vm_n = 0
